@@ -897,3 +897,20 @@ class OrWrapperGuard:
             return n2, set(), set()
         self.via = "wrapper " + self.callee.split("::")[-1]
         return CallGuard([self.callee], self.steps, self.label).edges(body)
+
+
+class FieldBoolGuard:
+    """a bool *field* read (`x.is_valid`): accepting side = field is `want`"""
+
+    def __init__(self, field, want=True, label=None):
+        self.field, self.want = field, want
+        self.label = label or "%s is %s" % (field, want)
+
+    def edges(self, body):
+        from flow import field_reads
+        tr = Tracker(body)
+        seeds = {d for d, r, p in field_reads(body, self.field) if p[-1] == "." + self.field}
+        for l in seeds:
+            tr.seed_bool(l, self.want)
+        tr.run()
+        return len(seeds), tr.accept, tr.reject
